@@ -15,11 +15,13 @@ MANIFEST = dict(
           "the same listing (C11_after_dot_in_context); elsewhere in "
           "a method body exactly the method's parameters and locals plus the names whose nearest declaration in the class "
           "chain is a constant (C11_plain); an operand of unknown or non-indexed type yields no proposals "
-          "(C11_unknown_type_empty, C11_unindexed_type_empty). One *_refuted theorem states where /repo departs from the "
+          "(C11_unknown_type_empty, C11_unindexed_type_empty); re-casing the references stored in the workspace changes no "
+          "proposal (C11_workspace_recase). One *_refuted theorem states where /repo departs from the "
           "wording (forward reference in the operand), one the defect of the step repaired by 945552f. The model is tied to /repo by rendering generated workspaces to Gold files and comparing, at every dot "
           "position (complete name, partial name, dangling `x.` on the line being typed) and every statement start, the sorted "
           "labels of generate_completion_proposals (twice, 10 s watchdog) with the extracted model's; an independent oracle "
-          "evaluates the property's wording on the implementation's answers."),
+          "evaluates the property's wording on the implementation's answers. Metamorphic stage as in C10 (re-cased stored "
+          "references, both variants through both engines)."),
     note=("partial: proved for the scoping core on abstract workspaces; the rendering of a workspace to files, the parser (the "
           "AstEmpty operand of a dangling dot), the annotated tree, the position -> node step and the eval-type annotation of "
           "expressions are validated by the differential run only. Filtering by the partial name is left to the client (the "
@@ -59,6 +61,7 @@ def correspondence(ctx, broken_obligations=()):
         v.coverage = dict(getattr(v, "coverage", {}) or {}, **meta)
         raise
     cov.update(meta)
+    cov.update(S.recase_stage(ctx, PID, KINDS))
     return cov
 
 
